@@ -90,7 +90,7 @@ _TMPDIRS = []
 STYLES = ["f32sub", "f32memmap", "f32c", "f64c", "f32f", "f32strided", "csr32", "csr32u", "csr64", "csc32", "bits", "f64f"]
 
 
-def check_case(res, rng, style, metric, update_first=False, tree_init=None):
+def check_case(res, rng, style, metric, update_first=False, tree_init=None, compressed=None):
     n = int(rng.choice([30, 70])); dim = 5 if style != "bits" else 3; k = 4
     X, cls = make_input(rng, metric, style, n, dim)
     sparse = sp.issparse(X)
@@ -103,6 +103,10 @@ def check_case(res, rng, style, metric, update_first=False, tree_init=None):
         if rng.integers(2):
             extra["init_dist"] = w.add("init_dist", rng.random((n, k)).astype(np.float32))
     tree_init = bool(rng.integers(3) > 0) if tree_init is None else tree_init
+    if compressed is None:
+        compressed = bool(rng.integers(4) == 0)
+    if compressed:
+        extra["compressed"] = True                 # configuration: a compressed index must not economise on the CALLER's arrays either
     case = {"style": style, "metric": metric, "n": n, "tree_init": tree_init, "extra": sorted(extra)}
     key = "alias:%s:%s" % (style, metric)
     ops_done = ["init"]
@@ -181,7 +185,8 @@ def run(res, tier, seed, search):
             # the index aliases this buffer: every (metric with its own query glue) x (rows reordered at prepare or not)
             for m in ("cosine", "euclidean"):
                 for ti in (False, True):
-                    check_case(res, rng, style, m, tree_init=ti)
+                    check_case(res, rng, style, m, tree_init=ti, compressed=False)
+                check_case(res, rng, style, m, tree_init=True, compressed=True)
         if style in ("f32sub", "f32memmap"):
             check_case(res, rng, style, "dot")
     import shutil
